@@ -790,6 +790,33 @@ def history(g, r, base, grid, rng, steps=9):
     ref = {c: dict(zip(grid, impl['samples'][c])) for c in chans}
     w = build(r)
     n = len(grid)
+    # the value at a time must not depend on how the time array is represented: integer and float32 arrays holding
+    # the same times as the float64 reference
+    ints = [x for x in grid if F(x).denominator == 1]
+    for c in chans:
+        for dtype, times in (('int64', ints), ('int32', ints), ('float32', grid)):
+            if not times or (dtype == 'int32' and rng.random() < 0.5):
+                continue
+            t = np.array([fl(x) for x in times]).astype(dtype)
+            snap = t.copy()
+            how = rng.choice(['get_sampled', 'unsafe_sample'])
+            try:
+                res = getattr(build(r) if rng.random() < 0.5 else w, how)(c, t)
+            except Exception as e:  # noqa
+                g.violation('history: %s with a %s time array raised %s: %s' % (how, dtype, type(e).__name__, str(e)[:120]),
+                            grid=[str(x) for x in grid])
+                return
+            ctx.count('history:dtype-' + dtype)
+            got = [val(x) for x in res]
+            want = [ref[c][x] for x in times]
+            if got != want:
+                g.violation('history: %s(%r) with a %s time array returned %s, with the same times as float64 %s'
+                            % (how, c, dtype, _fmt(got), _fmt(want)), dtype=dtype, grid=[str(x) for x in grid])
+                return
+            if not np.array_equal(t, snap):
+                g.violation('history: %s(%r) modified the caller\'s %s sample time array' % (how, c, dtype),
+                            grid=[str(x) for x in grid])
+                return
     k = max(1, n // 2)
     g1 = sorted(rng.sample(grid, k))
     g2 = sorted(rng.sample(grid, k))
@@ -953,7 +980,41 @@ def eq_hash(B, g, r, base, grid, rng):
         g.diffs.append(('eq', g.line, 'two objects built from the same recipe compare unequal', 'equal'))
     elif ha != hb:
         g.violation('equality: two waveforms compare equal but their hashes differ')
-    m = mutate_recipe(rng, r)
+    near_miss(B, g, r, a, ha, base, grid, mutate_recipe(rng, r), 'near-miss')
+    # otherwise identical waveforms whose durations differ by a tiny relative amount (2^-31 … 2^-46)
+    near_miss(B, g, r, a, ha, base, grid, dur_near_miss(rng, r), 'duration-near-miss')
+
+
+def _copy_recipe(r):
+    return json.loads(json.dumps(r, default=lambda f: {'__q': [f.numerator, f.denominator]}),
+                      object_hook=lambda d: F(*d['__q']) if '__q' in d else d)
+
+
+def dur_near_miss(rng, r):
+    """the same recipe with the duration of one constant / function leaf multiplied by 1 + 2^-k"""
+    r = _copy_recipe(r)
+    leaves = []
+
+    def walk(x):
+        if x[0] in ('const', 'mapping') and F(x[1]) > 0:
+            leaves.append((x, 1))
+        elif x[0] == 'func' and F(x[4]) > 0:
+            leaves.append((x, 4))
+        for c in x[1:]:
+            if isinstance(c, list) and c and isinstance(c[0], str) and c[0] in KIND_SET:
+                walk(c)
+    walk(r)
+    if not leaves:
+        return None
+    x, i = rng.choice(leaves)
+    x[i] = F(x[i]) * (1 + F(1, 2 ** rng.randint(31, 46)))
+    return r
+
+
+def near_miss(B, g, r, a, ha, base, grid, m, kind):
+    """a is built from r; m is a slightly different recipe: if the implementation calls them equal, everything
+    observable has to agree (eq_congr judged on the implementation)"""
+    ctx = g.ctx
     if m is None:
         return
     try:
@@ -966,8 +1027,8 @@ def eq_hash(B, g, r, base, grid, rng):
     except Exception as e:  # noqa
         g.violation('equality: == / hash raised %s: %s' % (type(e).__name__, str(e)[:100]), other=sx(m))
         return
-    ctx.count('eq:near-miss')
-    ctx.count('eq:near-miss-equal' if eq else 'eq:near-miss-unequal')
+    ctx.count('eq:' + kind)
+    ctx.count('eq:%s-%s' % (kind, 'equal' if eq else 'unequal'))
     line = sx(['c08', 'eq', r, m])
     oc = observe(m, grid) if eq else None
 
@@ -980,15 +1041,16 @@ def eq_hash(B, g, r, base, grid, rng):
     if eq:
         # waveforms that compare equal have equal hashes, channels, durations and samples
         if ha != hc:
-            g.violation('equality: two waveforms compare equal but their hashes differ', other=sx(m))
+            g.violation('equality: two waveforms compare equal but their hashes differ (%s)' % kind, other=sx(m))
         bi = base['impl']
         if 'error' in oc or 'error' in bi:
             return
         if oc['chans'] != bi['chans'] or oc['dur'] != bi['dur']:
-            g.violation('equality: waveforms compare equal but channels / durations differ', other=sx(m))
+            g.violation('equality: waveforms compare equal but channels / durations differ (%s): %s vs %s'
+                        % (kind, oc['dur'], bi['dur']), other=sx(m))
         else:
             judge(B, g, 'judge-same', [vals_sx(flat(oc['samples'], oc['chans'])), vals_sx(flat(bi['samples'], bi['chans']))],
-                  'equality: waveforms compare equal but sample differently', other=sx(m))
+                  'equality: waveforms compare equal but sample differently (%s)' % kind, other=sx(m))
 
 
 # ---------------------------------------------------------------------------------------------
